@@ -261,11 +261,11 @@ func (ch c03) framing(c *core.Ctx, env *hs.Env, rng *core.Rng, idx int) {
 		case 1: // unknown message type with a random body
 			m = pg.Raw(core.Pick(rng, []byte("~!zYRTZ1\x00\xff")), rng.Bytes(rng.Intn(300)))
 			shape += "U"
-		case 2: // Sync / Flush carrying surplus bytes
-			m = pg.Raw(core.Pick(rng, []byte("SH")), rng.Bytes(rng.Intn(200)))
+		case 2: // Sync / Flush carrying surplus bytes (a few, or thousands: any length up to the limit is a length)
+			m = pg.Raw(core.Pick(rng, []byte("SH")), rng.Bytes(core.Pick(rng, []int{rng.Intn(200), rng.Intn(200), 9995 + rng.Intn(10), 12000, 30000 + rng.Intn(30000), L - 1, L})))
 			shape += "s"
 		case 3: // stray COPY messages outside COPY mode
-			m = core.Pick(rng, [][]byte{pg.CopyData(rng.Bytes(rng.Intn(500))), pg.CopyDone(), pg.CopyFail("stray"), pg.Raw('c', rng.Bytes(9))})
+			m = core.Pick(rng, [][]byte{pg.CopyData(rng.Bytes(rng.Intn(500))), pg.CopyDone(), pg.CopyFail("stray"), pg.Raw('c', rng.Bytes(9)), pg.Raw('c', rng.Bytes(9993+rng.Intn(10))), pg.CopyFail(strings.Repeat("f", 10000+rng.Intn(40000)))})
 			shape += "c"
 		case 4: // Parse with prespecified types (unread tail) for a known program
 			q := fmt.Sprintf("fp%d.%d.%d", c.Batch, idx, i)
@@ -284,7 +284,7 @@ func (ch c03) framing(c *core.Ctx, env *hs.Env, rng *core.Rng, idx int) {
 			m = pg.Raw('Q', append(append([]byte(q), 0), rng.Bytes(rng.Intn(100))...))
 			shape += "Q"
 		default: // Close / Execute with surplus
-			m = pg.Raw('C', append([]byte("Sx\x00"), rng.Bytes(rng.Intn(50))...))
+			m = pg.Raw('C', append([]byte("Sx\x00"), rng.Bytes(core.Pick(rng, []int{rng.Intn(50), rng.Intn(50), 9990 + rng.Intn(10), 20000 + rng.Intn(40000)}))...))
 			shape += "C"
 		}
 		stream = append(stream, m...)
